@@ -361,6 +361,30 @@ pub fn gen07(ctx: &Ctx) {
         steps.extend(exchange(&mut rng, &probe(), false));
         finish_case(&mut out, 4096, steps, &format!("malformed-body/{kind}{path}"));
     }
+    // pipelined requests (since the repair of F20c nothing read beyond a request's body is lost): 2..4 requests sent without
+    // waiting for the answers, as one segment, cut anywhere, or in small pieces; every one is answered, in order
+    let np = if ctx.thorough { 600 } else { 80 };
+    for _ in 0..np {
+        let k = rng.range(2, 4) as usize;
+        let mut all: Vec<u8> = Vec::new();
+        for j in 0..k {
+            let blen = rng.range(0, 30) as usize;
+            let payload: Vec<u8> = (0..blen).map(|_| b'a' + rng.below(26) as u8).collect();
+            let (fields, body) = match rng.below(3) {
+                0 => (vec![], vec![]),
+                1 => (vec![("Content-Length".to_string(), blen.to_string().into_bytes())], payload.clone()),
+                _ => (vec![("Transfer-Encoding".to_string(), b"chunked".to_vec())], chunked(&payload, &mut rng)),
+            };
+            let path = match rng.below(6) { 0 => "/none".to_string(), 1 => "/first".to_string(), 2 => format!("/k/{}", rng.below(5)), 3 => "/nosuch".to_string(), _ => format!("/all?p={j}") };
+            let r = Req { method: if body.is_empty() && fields.is_empty() { "GET" } else { "POST" }, path, fields, body };
+            all.extend(r.head()); all.extend(&r.body);
+        }
+        let style = *rng.pick(&[0u64, 1, 1, 3]);
+        let mut steps: Vec<String> = cut(&mut rng, &all, style).iter().map(|s| format!("D{}", hex(s))).collect();
+        for _ in 0..k { steps.push("R".into()); }
+        steps.extend(exchange(&mut rng, &probe(), false));
+        finish_case(&mut out, 4096, steps, &format!("pipelined/{k}"));
+    }
     // hold histories: request i answers before its body is read; the rest of its body and the whole next
     // request reach the server in one piece while the handler is held
     let m = if ctx.thorough { 600 } else { 60 };
